@@ -15,13 +15,26 @@ VARIABLES l, failed
 TraceLog == ndJsonDeserialize("trace.ndjson")
 tvars == <<ovars, l, failed>>
 
-Checks == << <<"NeverAhead", NeverAhead>>, <<"NoNegativeDelta", NoNegativeDelta>>, <<"Conservation", Conservation>>,
-             <<"IdleCycleSilent", IdleCycleSilent>>, <<"GaugeAuthentic", GaugeAuthentic>>, <<"GaugeFresh", GaugeFresh>>,
-             <<"GaugeCountBound", GaugeCountBound>>, <<"ReacquireFresh", ReacquireFresh>>, <<"CloseBarrier", CloseBarrier>>,
-             <<"QuietAfterClose", QuietAfterClose>>, <<"ReporterClosedOnce", ReporterClosedOnce>>,
-             <<"ReporterClosedAfterFlush", ReporterClosedAfterFlush>>, <<"TimersSynchronousOnce", TimersSynchronousOnce>> >>
-
-Broken == {i \in 1..Len(Checks) : ~Checks[i][2]}
+CheckName(i) == <<"NeverAhead", "NoNegativeDelta", "Conservation", "IdleCycleSilent", "GaugeAuthentic", "GaugeFresh",
+                  "GaugeCountBound", "ReacquireFresh", "CloseBarrier", "QuietAfterClose", "ReporterClosedOnce",
+                  "ReporterClosedAfterFlush", "TimersSynchronousOnce">>[i]
+Holds(i) == CASE i = 1 -> NeverAhead [] i = 2 -> NoNegativeDelta [] i = 3 -> Conservation [] i = 4 -> IdleCycleSilent
+              [] i = 5 -> GaugeAuthentic [] i = 6 -> GaugeFresh [] i = 7 -> GaugeCountBound [] i = 8 -> ReacquireFresh
+              [] i = 9 -> CloseBarrier [] i = 10 -> QuietAfterClose [] i = 11 -> ReporterClosedOnce
+              [] i = 12 -> ReporterClosedAfterFlush [] i = 13 -> TimersSynchronousOnce
+(* the invariants an event can break (each is a function of ghost state that only these events change) *)
+Relevant(r) ==
+  CASE r.e = "dlv" /\ r.k = "counter" -> {1, 2, 4, 10}
+    [] r.e = "dlv" /\ r.k = "gauge"   -> {5, 7, 10}
+    [] r.e = "dlv" /\ r.k = "timer"   -> {10, 13}
+    [] r.e = "quiesce"  -> {3}
+    [] r.e = "passe"    -> {6}
+    [] r.e = "subret"   -> {8}
+    [] r.e = "rootcloseret" -> {9}
+    [] r.e = "flush"    -> {10}
+    [] r.e = "rclose"   -> {10, 11, 12}
+    [] r.e = "timerret" -> {13}
+    [] OTHER -> {}
 
 TInit == ObsInit(0) /\ l = 1 /\ failed = FALSE
 
@@ -53,9 +66,9 @@ TNext ==
      IN /\ IF r.e = "scn" THEN ObsReset(r.mod) ELSE Apply(r)
         /\ l' = l + 1
         \* judged after every event: the first broken invariant of an execution is reported once
-        /\ LET b == Broken' IN
+        /\ LET b == {i \in Relevant(r) : ~(Holds(i)')} IN
              /\ failed' = (carried \/ b # {})
-             /\ IF ~carried /\ b # {} THEN PrintT(<<"FAIL", l, Checks[CHOOSE i \in b : TRUE][1]>>) ELSE TRUE
+             /\ IF ~carried /\ b # {} THEN PrintT(<<"FAIL", l, CheckName(CHOOSE i \in b : TRUE)>>) ELSE TRUE
 
 TraceSpec == TInit /\ [][TNext]_tvars
 =============================================================================
